@@ -107,4 +107,13 @@ CLAIMED["C06"] = {
           "type, multi-value call as last of several values.",
   "technique": "Coq proof by exhaustive computation over a stated finite table + implementation run of the same table",
 }
+CLAIMED["C07"] = {
+  "text": "Theorems for every context and token continuation: break/continue without an enclosing loop, return outside a function, func below top level and "
+          "an undefined variable are parser errors; the 96-entry scoping table is decided inside Coq on the model of the whole pipeline (bound = the table). "
+          "The table (plus import-boundary programs), generated misplacements and fuzzed import graphs run through the implementation and must agree "
+          "with lexical scoping and with the model.",
+  "ref": "DESIGN.md section 5/C07",
+  "note": "PARTIAL: the general soundness/completeness statement over all programs is not proved.",
+  "technique": "Coq proof (one-step parser lemmas + exhaustive table by computation) + implementation run of the same table",
+}
 NOT_CLAIMED = {}
